@@ -146,6 +146,23 @@ func (v *IndexVamana) insertUpdateDelete(ctx context.Context, pointQueue <-chan 
 	deletedPointsIds := make([]uint64, 0)
 	toRemoveInBoundNodeIds := make(map[uint64]struct{})
 	// ---------------------------
+	/* A batch may name the same point more than once, e.g. an update request
+	 * that sets a vector and then removes it again. The operations below are
+	 * derived from what exists before the batch and are not applied in arrival
+	 * order (deletes go before re-inserts), so only the last change of a point
+	 * counts. */
+	changes := make([]IndexVectorChange, 0)
+	lastChange := make(map[uint64]int)
+	for change := range pointQueue {
+		if i, ok := lastChange[change.Id]; ok {
+			changes[i] = change
+			continue
+		}
+		lastChange[change.Id] = len(changes)
+		changes = append(changes, change)
+	}
+	pointQueue = utils.ProduceWithContext(ctx, changes)
+	// ---------------------------
 	insertQ, distributeErrC := utils.TransformWithContext(ctx, pointQueue, func(point IndexVectorChange) (out IndexVectorChange, skip bool, err error) {
 		if point.Id == STARTID {
 			err = fmt.Errorf("cannot modify point with start id: %d", STARTID)
